@@ -36,7 +36,8 @@ pub fn layer_to_config(l: &Value) -> TestCaseConfig {
     for e in ["X", "Y"] {
         match l["env"][e].as_str().unwrap_or("U") {
             "A" => { c.environment.insert(e.to_string(), format!("{e}-a-val")); }
-            "B" => { c.environment.insert(e.to_string(), format!("{e}-b-val")); }
+            // (value B of the variable Y is the EMPTY string: set, but empty - not the same as not set)
+            "B" => { c.environment.insert(e.to_string(), if e == "Y" { String::new() } else { format!("{e}-b-val") }); }
             _ => {}
         }
     }
@@ -55,7 +56,7 @@ pub fn config_to_layer(c: &TestCaseConfig) -> Value {
     scalar.insert("wait".into(), json!(ab(c.wait.as_ref().map(|w| w.path.is_none()))));
     let mut env = serde_json::Map::new();
     for e in ["X", "Y"] {
-        env.insert(e.into(), json!(match c.environment.get(e).map(|s| s.as_str()) { None => "U", Some(v) if v.ends_with("-a-val") => "A", Some(v) if v.ends_with("-b-val") => "B", Some(_) => "?" }));
+        env.insert(e.into(), json!(match c.environment.get(e).map(|s| s.as_str()) { None => "U", Some(v) if v.ends_with("-a-val") => "A", Some(v) if v.ends_with("-b-val") || (e == "Y" && v.is_empty()) => "B", Some(_) => "?" }));
     }
     let _ = KEYS;
     json!({"scalar": scalar, "env": env})
